@@ -13,6 +13,15 @@ pub fn check(sc: &Scenario, res: &RunResult) -> Vec<Violation> {
     if opts.skip_unref {
         return out; // that option legitimately drops stacks
     }
+    if let Some(d0) = res.dumps.first() {
+        if let crate::run::DumpRes::Err(e) = &d0.result {
+            // a stack that cannot be read (stack pointer in guard pages, unmapped) is left out; it does not
+            // cost the whole request
+            if sc.events.is_empty() && sc.faults.iter().all(|f| matches!(f.trig.kind, CallKind::Vmreadv) || (f.trig.kind == CallKind::Open && f.trig.path.as_deref() == Some("/mem"))) && !d0.kernel_after.dead && e.contains("SectionThreadListError(CopyFromProcessError") {
+                out.push(v("C06", "unreadable-stack-fails-request", format!("the request failed on a thread stack that cannot be read: {}", e.chars().take(200).collect::<String>())));
+            }
+        }
+    }
     let Some((d, img)) = util::first_ok(res) else { return out };
     let dec = decode::decode(img);
     let Some(threads) = &dec.threads else { return out };
@@ -32,7 +41,7 @@ pub fn check(sc: &Scenario, res: &RunResult) -> Vec<Violation> {
         let start = t.stack_start;
         let size = t.stack_size as u64;
         let reg = util::region_of(w, sp);
-        let readable = reg.map(|r| r.readable()).unwrap_or(false);
+        let readable = reg.map(|r| r.readable()).unwrap_or(false) && !util::no_remote(w, sp);
         if readable {
             let (_lo, hi) = util::mapping_hull(w, sp).unwrap();
             if size == 0 {
@@ -69,12 +78,28 @@ pub fn check(sc: &Scenario, res: &RunResult) -> Vec<Violation> {
                 continue;
             }
             let page = sp & !0xfff;
-            let cand = w
+            // pages at the start of a candidate that no strategy can read (an installed guard) are skipped
+            let past_guard = |mut a: u64| {
+                while let Some((s0, l0)) = w.no_remote.iter().find(|(s0, l0)| a >= *s0 && a - *s0 < *l0) {
+                    a = s0 + l0;
+                }
+                a
+            };
+            let mut cand = w
                 .regions
                 .iter()
                 .filter(|r| r.start > page && (r.perms.starts_with('r') || r.perms.as_bytes()[1] == b'w'))
-                .map(|r| r.start)
+                .map(|r| past_guard(r.start))
                 .min();
+            // the stack pointer sits in guard pages that were installed inside the stack's own mapping
+            if util::no_remote(w, sp) {
+                if let Some(r) = reg {
+                    let c = past_guard(page);
+                    if c < r.end() {
+                        cand = Some(c);
+                    }
+                }
+            }
             match cand {
                 Some(c) if c - page <= GUARD + 0x1000 => {
                     if start != c {
